@@ -17,11 +17,19 @@
 //!            read-modify-write (between the read and the write-back) while thread B runs a conflicting
 //!            operation to completion (or blocks on a lock, which is fine); then A resumes. Same oracle.
 //!
-//! `--part seq|concurrent|stress|det|all` selects parts (`concurrent` = stress + det, used by the TSan leg).
+//!  batch   : 2-8 threads in tight loops of many short creations on mostly DISJOINT node sets (a private
+//!            ring per thread, a few shared nodes): batch_create_edges (1-3 edges) mixed with single
+//!            create_edge, batch_create_nodes / create_node, and - depending on the round's flavour -
+//!            batch_delete_edges, batch_update_nodes, delete_node / batch_delete_nodes on a victim pool.
+//!            Oracle at quiescence: every id a successful create returned is unique across all threads,
+//!            the record stored under it is the one that call created (from, to, type, direction and a
+//!            per-call unique payload), plus the structural walker.
+//!
+//! `--part seq|concurrent|stress|det|batch|all` selects parts (`concurrent` = stress + det + batch, used by the TSan leg).
 
 use common::sched::{self, Gate};
 use common::*;
-use graph_engine::{Direction, GraphEngine, GraphError, PropertyValue};
+use graph_engine::{Direction, EdgeInput, GraphEngine, GraphError, NodeInput, PropertyValue};
 use parking_lot::Mutex;
 use serde_json::{json, Value};
 use std::collections::{BTreeMap, BTreeSet, HashMap, VecDeque};
@@ -48,19 +56,39 @@ struct TEdge {
 struct Truth {
     nodes: BTreeSet<u64>,
     edges: BTreeMap<u64, TEdge>,
+    /// node -> ids of the edges touching it; only a lookup accelerator built by `indexed()` for one
+    /// walk over a frozen copy (None = scan all edges)
+    inc: Option<HashMap<u64, Vec<u64>>>,
 }
 
 impl Truth {
+    fn indexed(&self) -> Truth {
+        let mut inc: HashMap<u64, Vec<u64>> = HashMap::new();
+        for (&id, e) in &self.edges {
+            inc.entry(e.from).or_default().push(id);
+            if e.to != e.from {
+                inc.entry(e.to).or_default().push(id);
+            }
+        }
+        Truth { nodes: self.nodes.clone(), edges: self.edges.clone(), inc: Some(inc) }
+    }
+    /// the edges that can touch n (all edges when no index was built)
+    fn touching(&self, n: u64) -> Vec<(u64, &TEdge)> {
+        match &self.inc {
+            Some(inc) => inc.get(&n).map(|v| v.iter().filter_map(|id| self.edges.get(id).map(|e| (*id, e))).collect()).unwrap_or_default(),
+            None => self.edges.iter().map(|(&id, e)| (id, e)).collect(),
+        }
+    }
     fn out_set(&self, n: u64) -> BTreeSet<u64> {
-        self.edges.iter().filter(|(_, e)| e.from == n || (!e.directed && e.to == n)).map(|(&id, _)| id).collect()
+        self.touching(n).into_iter().filter(|(_, e)| e.from == n || (!e.directed && e.to == n)).map(|(id, _)| id).collect()
     }
     fn in_set(&self, n: u64) -> BTreeSet<u64> {
-        self.edges.iter().filter(|(_, e)| e.to == n || (!e.directed && e.from == n)).map(|(&id, _)| id).collect()
+        self.touching(n).into_iter().filter(|(_, e)| e.to == n || (!e.directed && e.from == n)).map(|(id, _)| id).collect()
     }
     /// neighbours of n other than n itself
     fn neighbors(&self, n: u64, ty: Option<&str>, dir: Direction) -> BTreeSet<u64> {
         let mut s = BTreeSet::new();
-        for e in self.edges.values() {
+        for (_, e) in self.touching(n) {
             if let Some(t) = ty {
                 if e.ty != t {
                     continue;
@@ -147,6 +175,7 @@ fn raw_list(g: &GraphEngine, key: &str) -> Vec<u64> {
 /// (neighbor / degree / traversal "exactly what the set of existing edges implies"); phase 2 runs only
 /// when phase 1 is clean so that one root cause is not reported under five names.
 fn walk(g: &GraphEngine, t: &Truth, rng: &mut Rng, counters: &mut BTreeMap<&'static str, u64>) -> Vec<Finding> {
+    let t = &t.indexed();
     let mut f: Vec<Finding> = Vec::new();
     let mut bump = |k: &'static str, n: u64| *counters.entry(k).or_insert(0) += n;
     // --- phase 1
@@ -1076,6 +1105,368 @@ fn det_case(case_seed: u64, scenario: Option<usize>, r: &mut Report) {
     }
 }
 
+
+// ------------------------------------------------------------------------------------------------
+// part batch: many short creations (batch_* mixed with single calls) on mostly disjoint node sets
+// ------------------------------------------------------------------------------------------------
+
+#[derive(Clone, Debug)]
+struct ESpec {
+    from: u64,
+    to: u64,
+    directed: bool,
+    ty: &'static str,
+    w: i64,
+}
+
+#[derive(Clone, Debug)]
+#[allow(dead_code)] // every field is shown in the recorded history
+enum BKind {
+    /// batch_create_edges (batch = true) or create_edge; ids as returned
+    Edges { batch: bool, specs: Vec<ESpec>, ids: Result<Vec<u64>, String> },
+    /// batch_create_nodes or create_node
+    Nodes { batch: bool, ids: Result<Vec<u64>, String> },
+    /// batch_delete_edges or delete_edge: ids asked for
+    DelEdges { batch: bool, ids: Vec<u64> },
+    /// batch_delete_nodes or delete_node
+    DelNodes { batch: bool, ids: Vec<u64> },
+    UpdNodes { ids: Vec<u64> },
+}
+
+#[derive(Clone, Debug)]
+struct BEv {
+    thread: usize,
+    /// nanoseconds since the start of the round (thread-local clock reads: nothing shared is touched)
+    inv: u64,
+    res: u64,
+    kind: BKind,
+}
+
+fn bev_json(e: &BEv) -> Value {
+    json!({"t": e.thread, "inv_ns": e.inv, "res_ns": e.res, "op": format!("{:?}", e.kind)})
+}
+
+fn batch_case(case_seed: u64, r: &mut Report) {
+    let mut rng = Rng::new(case_seed);
+    let threads = 2 + rng.below(7);
+    let private_n = 8 + rng.below(25);
+    let shared_n = 2 + rng.below(3);
+    let rounds = 150 + rng.below(500);
+    // 0 creations only; 1 + batch_delete_edges/delete_edge, batch_update_nodes; 2 + node deletions on a victim pool
+    let flavour = rng.weighted(&[50, 25, 25]);
+    let victims_n = if flavour == 2 { 6 + rng.below(10) } else { 0 };
+    let g = Arc::new(GraphEngine::new());
+    let replay = json!({"part": "batch", "case_seed": case_seed});
+    let mk_nodes = |n: usize, label: &str| -> Option<Vec<u64>> {
+        match g.batch_create_nodes((0..n).map(|_| NodeInput::new(vec![label.to_string()], props_v(0))).collect()) {
+            Ok(b) if b.created_ids.len() == n => Some(b.created_ids),
+            _ => None,
+        }
+    };
+    let (Some(shared), Some(victims)) = (mk_nodes(shared_n, "Shared"), mk_nodes(victims_n, "Victim")) else {
+        r.inconclusive("batch: setup failed");
+        return;
+    };
+    let mut privs: Vec<Vec<u64>> = Vec::new();
+    for _ in 0..threads {
+        match mk_nodes(private_n, "Private") {
+            Some(v) => privs.push(v),
+            None => {
+                r.inconclusive("batch: setup failed");
+                return;
+            }
+        }
+    }
+    let mut setup_nodes: Vec<u64> = shared.iter().chain(victims.iter()).copied().collect();
+    for p in &privs {
+        setup_nodes.extend(p);
+    }
+    let barrier = Arc::new(Barrier::new(threads));
+    let t0 = Instant::now();
+    let seeds: Vec<u64> = (0..threads).map(|_| rng.next_u64()).collect();
+    let (shared, victims) = (Arc::new(shared), Arc::new(victims));
+    let joined: Vec<Result<Vec<BEv>, String>> = std::thread::scope(|s| {
+        let hs: Vec<_> = (0..threads)
+            .map(|ti| {
+                let g = g.clone();
+                let barrier = barrier.clone();
+                let (shared, victims) = (shared.clone(), victims.clone());
+                let mut ring = privs[ti].clone();
+                let seed = seeds[ti];
+                s.spawn(move || {
+                    let mut rng = Rng::new(seed);
+                    let mut log: Vec<BEv> = Vec::with_capacity(rounds);
+                    let mut my_edges: Vec<u64> = Vec::new();
+                    let mut seq = 0i64;
+                    barrier.wait();
+                    for rd in 0..rounds {
+                        let w: [u32; 7] = match flavour {
+                            0 => [58, 27, 8, 4, 0, 0, 3],
+                            1 => [50, 24, 6, 3, 10, 0, 7],
+                            _ => [50, 24, 6, 3, 4, 8, 5],
+                        };
+                        let choice = rng.weighted(&w);
+                        let edge_spec = |rng: &mut Rng, seq: &mut i64| -> ESpec {
+                            let from = ring[rng.below(ring.len())];
+                            let to = if !victims.is_empty() && rng.chance(1, 5) {
+                                victims[rng.below(victims.len())]
+                            } else if rng.chance(1, 16) {
+                                shared[rng.below(shared.len())]
+                            } else if rng.chance(1, 37) {
+                                from
+                            } else {
+                                ring[rng.below(ring.len())]
+                            };
+                            let (from, to) = if rng.chance(1, 6) { (to, from) } else { (from, to) };
+                            *seq += 1;
+                            ESpec { from, to, directed: rng.chance(4, 5), ty: TYPES[rng.below(3)], w: ((ti as i64) << 32) | *seq }
+                        };
+                        let inv;
+                        let kind = match choice {
+                            0 => {
+                                let n = 1 + rng.below(3);
+                                let specs: Vec<ESpec> = (0..n).map(|_| edge_spec(&mut rng, &mut seq)).collect();
+                                let input: Vec<EdgeInput> = specs.iter().map(|e| EdgeInput::new(e.from, e.to, e.ty, props_w(e.w), e.directed)).collect();
+                                inv = t0.elapsed().as_nanos() as u64;
+                                let ids = g.batch_create_edges(input).map(|b| b.created_ids).map_err(|e| e.to_string());
+                                BKind::Edges { batch: true, specs, ids }
+                            }
+                            1 => {
+                                let e = edge_spec(&mut rng, &mut seq);
+                                let p = props_w(e.w);
+                                inv = t0.elapsed().as_nanos() as u64;
+                                let ids = g.create_edge(e.from, e.to, e.ty, p, e.directed).map(|id| vec![id]).map_err(|e| e.to_string());
+                                BKind::Edges { batch: false, specs: vec![e], ids }
+                            }
+                            2 => {
+                                // a rare large batch takes the engine's parallel creation path (>= 100 items)
+                                let n = if rd == rounds / 2 && rng.chance(1, 4) { 100 + rng.below(30) } else { 1 + rng.below(3) };
+                                let input: Vec<NodeInput> = (0..n).map(|_| NodeInput::new(vec!["Private".to_string()], props_v(1))).collect();
+                                inv = t0.elapsed().as_nanos() as u64;
+                                let ids = g.batch_create_nodes(input).map(|b| b.created_ids).map_err(|e| e.to_string());
+                                BKind::Nodes { batch: true, ids }
+                            }
+                            3 => {
+                                inv = t0.elapsed().as_nanos() as u64;
+                                let ids = g.create_node("Private", props_v(1)).map(|id| vec![id]).map_err(|e| e.to_string());
+                                BKind::Nodes { batch: false, ids }
+                            }
+                            4 => {
+                                // delete some of this thread's own older edges
+                                if my_edges.len() < 4 {
+                                    continue;
+                                }
+                                let n = 1 + rng.below(3);
+                                let ids: Vec<u64> = (0..n).map(|_| my_edges.swap_remove(rng.below(my_edges.len()))).collect();
+                                let batch = rng.bool();
+                                inv = t0.elapsed().as_nanos() as u64;
+                                if batch {
+                                    let _ = g.batch_delete_edges(ids.clone());
+                                } else {
+                                    for &id in &ids {
+                                        let _ = g.delete_edge(id);
+                                    }
+                                }
+                                BKind::DelEdges { batch, ids }
+                            }
+                            5 => {
+                                let n = 1 + rng.below(2);
+                                let ids: Vec<u64> = (0..n).map(|_| victims[rng.below(victims.len())]).collect();
+                                let batch = rng.bool();
+                                inv = t0.elapsed().as_nanos() as u64;
+                                if batch {
+                                    let _ = g.batch_delete_nodes(ids.clone());
+                                } else {
+                                    for &id in &ids {
+                                        let _ = g.delete_node(id);
+                                    }
+                                }
+                                BKind::DelNodes { batch, ids }
+                            }
+                            _ => {
+                                let n = 1 + rng.below(3);
+                                let ids: Vec<u64> = (0..n).map(|_| ring[rng.below(ring.len())]).collect();
+                                let input = ids.iter().map(|&id| (id, None, props_v(rng.range(10, 99)))).collect();
+                                inv = t0.elapsed().as_nanos() as u64;
+                                let _ = g.batch_update_nodes(input);
+                                BKind::UpdNodes { ids }
+                            }
+                        };
+                        let res = t0.elapsed().as_nanos() as u64;
+                        match &kind {
+                            BKind::Edges { ids: Ok(ids), .. } => my_edges.extend(ids),
+                            BKind::Nodes { ids: Ok(ids), .. } => ring.extend(ids.iter().take(4)),
+                            _ => {}
+                        }
+                        log.push(BEv { thread: ti, inv, res, kind });
+                    }
+                    log
+                })
+            })
+            .collect();
+        hs.into_iter().map(|h| h.join().map_err(|e| panic_msg(&e))).collect()
+    });
+    let mut hist: Vec<BEv> = Vec::new();
+    for j in joined {
+        match j {
+            Ok(l) => hist.extend(l),
+            Err(msg) => {
+                r.violation(format!("panic:{}", first_line(&msg)), format!("batch round: a worker thread panicked inside the engine: {}", msg), replay);
+                return;
+            }
+        }
+    }
+    hist.sort_by_key(|e| e.inv);
+    // ---------------- quiescent: everybody joined
+    let ctx = format!("batch round case_seed {} threads {} private nodes/thread {} shared {} victims {} rounds/thread {} flavour {}", case_seed, threads, private_n, shared_n, victims_n, rounds, flavour);
+    let mut seen_sigs: BTreeSet<String> = BTreeSet::new();
+    let mut violate = |r: &mut Report, sig: &str, detail: String, evs: Vec<&BEv>| {
+        if seen_sigs.insert(sig.to_string()) {
+            r.violation(format!("batch:{}", sig), format!("{} — {}; calls involved: {}", detail, ctx, serde_json::to_string(&evs.iter().take(6).map(|e| bev_json(e)).collect::<Vec<_>>()).unwrap_or_default()), replay.clone());
+        }
+    };
+    // ids handed out by successful creations
+    let mut edge_owner: BTreeMap<u64, (usize, usize)> = BTreeMap::new(); // id -> (event index, position in call)
+    let mut node_owner: BTreeMap<u64, usize> = setup_nodes.iter().map(|&n| (n, usize::MAX)).collect();
+    let mut dup_edge_ids: BTreeSet<u64> = BTreeSet::new();
+    let (mut ids_out, mut batch_calls, mut failed_creates) = (0u64, 0u64, 0u64);
+    if node_owner.len() != setup_nodes.len() {
+        violate(r, "node-id-handed-out-twice", format!("the single-threaded setup batches returned a node id twice: {:?}", setup_nodes), vec![]);
+    }
+    for (i, ev) in hist.iter().enumerate() {
+        match &ev.kind {
+            BKind::Edges { batch, specs, ids } => {
+                batch_calls += *batch as u64;
+                match ids {
+                    Ok(ids) => {
+                        if ids.len() != specs.len() {
+                            violate(r, "create-returned-wrong-number-of-ids", format!("{} edges requested, {} ids returned", specs.len(), ids.len()), vec![ev]);
+                            continue;
+                        }
+                        for (pos, &id) in ids.iter().enumerate() {
+                            ids_out += 1;
+                            if let Some(&(j, _)) = edge_owner.get(&id) {
+                                dup_edge_ids.insert(id);
+                                violate(r, "edge-id-handed-out-twice", format!("edge id {} was returned by two successful creations (threads {} and {})", id, hist[j].thread, ev.thread), vec![&hist[j], ev]);
+                            } else {
+                                edge_owner.insert(id, (i, pos));
+                            }
+                        }
+                    }
+                    Err(_) => failed_creates += 1,
+                }
+            }
+            BKind::Nodes { batch, ids } => {
+                batch_calls += *batch as u64;
+                match ids {
+                    Ok(ids) => {
+                        for &id in ids {
+                            ids_out += 1;
+                            if let Some(&j) = node_owner.get(&id) {
+                                let other: Vec<&BEv> = if j == usize::MAX { vec![ev] } else { vec![&hist[j], ev] };
+                                violate(r, "node-id-handed-out-twice", format!("node id {} was returned by two successful creations", id), other);
+                            } else {
+                                node_owner.insert(id, i);
+                            }
+                        }
+                    }
+                    Err(_) => failed_creates += 1,
+                }
+            }
+            _ => {}
+        }
+    }
+    // which ids were targeted by a deletion (their absence / their edges' absence is then legitimate)
+    let mut deleted_edges: BTreeSet<u64> = BTreeSet::new();
+    let mut node_deletes: BTreeMap<u64, Vec<usize>> = BTreeMap::new();
+    for (i, ev) in hist.iter().enumerate() {
+        match &ev.kind {
+            BKind::DelEdges { ids, .. } => deleted_edges.extend(ids),
+            BKind::DelNodes { ids, .. } => ids.iter().for_each(|&n| node_deletes.entry(n).or_default().push(i)),
+            _ => {}
+        }
+    }
+    // the record stored under every id is the one that call created
+    let mut records_checked = 0u64;
+    for (&id, &(i, pos)) in &edge_owner {
+        let BKind::Edges { specs, .. } = &hist[i].kind else { continue };
+        let sp = &specs[pos];
+        if deleted_edges.contains(&id) || node_deletes.contains_key(&sp.from) || node_deletes.contains_key(&sp.to) || dup_edge_ids.contains(&id) {
+            continue;
+        }
+        records_checked += 1;
+        match g.get_edge(id) {
+            Ok(e) => {
+                if e.from != sp.from || e.to != sp.to || e.directed != sp.directed || e.edge_type != sp.ty || w_of(&e) != Some(sp.w) {
+                    violate(r, "edge-record-is-not-the-one-created", format!("edge {} was created as {:?} but get_edge returns {}->{} directed={} type={} w={:?}", id, sp, e.from, e.to, e.directed, e.edge_type, w_of(&e)), vec![&hist[i]]);
+                }
+            }
+            Err(err) => violate(r, "edge-record-lost", format!("edge {} ({:?}) was created successfully and nothing deleted it or its endpoints, yet get_edge = Err({})", id, sp, err), vec![&hist[i]]),
+        }
+    }
+    for (&id, &i) in &node_owner {
+        if !node_deletes.contains_key(&id) && !g.node_exists(id) {
+            violate(r, "node-record-lost", format!("node {} was created successfully and never deleted, yet node_exists = false", id), if i == usize::MAX { vec![] } else { vec![&hist[i]] });
+        }
+    }
+    // structure at quiescence
+    let truth = truth_from_engine(&g);
+    let mut counters: BTreeMap<&'static str, u64> = BTreeMap::new();
+    for f in walk(&g, &truth, &mut rng, &mut counters) {
+        // consequences of a duplicated id are reported under the duplicate, once
+        if !dup_edge_ids.is_empty() {
+            break;
+        }
+        let creator = f.edge.and_then(|id| edge_owner.get(&id)).map(|&(i, _)| &hist[i]);
+        // an edge whose creation overlapped a deletion of one of its endpoints
+        let racing_delete: Option<&BEv> = creator.and_then(|c| {
+            let BKind::Edges { specs, .. } = &c.kind else { return None };
+            specs.iter().flat_map(|sp| [sp.from, sp.to]).filter_map(|n| node_deletes.get(&n)).flatten().map(|&j| &hist[j]).find(|d| d.inv < c.res && c.inv < d.res)
+        });
+        let sig = match (racing_delete, creator.map(|c| matches!(c.kind, BKind::Edges { batch: true, .. }))) {
+            (Some(_), Some(true)) => "delete_node-vs-batch_create_edges".to_string(),
+            (Some(_), _) => "delete_node-vs-create_edge".to_string(),
+            _ => f.kind.to_string(),
+        };
+        let mut evs: Vec<&BEv> = creator.into_iter().collect();
+        evs.extend(racing_delete);
+        violate(r, &sig, format!("[{}] {}", f.kind, f.detail), evs);
+    }
+    for (k, v) in &counters {
+        r.count(k, *v);
+    }
+    // evidence: how much creation really overlapped
+    let creates: Vec<&BEv> = hist.iter().filter(|e| matches!(e.kind, BKind::Edges { .. } | BKind::Nodes { .. })).collect();
+    let mut overlapped = vec![false; creates.len()];
+    for i in 0..creates.len() {
+        let mut j = i + 1;
+        while j < creates.len() && creates[j].inv < creates[i].res {
+            if creates[j].thread != creates[i].thread {
+                overlapped[i] = true;
+                overlapped[j] = true;
+            }
+            j += 1;
+        }
+    }
+    let batch_overlapping = creates.iter().zip(&overlapped).filter(|(e, &o)| o && matches!(e.kind, BKind::Edges { batch: true, .. } | BKind::Nodes { batch: true, .. })).count() as u64;
+    r.count("batch_rounds", 1);
+    r.count("batch_create_calls", batch_calls);
+    r.count("batch_calls_overlapping_another_create", batch_overlapping);
+    r.count("batch_ids_handed_out", ids_out);
+    r.count("batch_edge_records_checked", records_checked);
+    r.count("batch_failed_creates", failed_creates);
+    r.count("batch_ops", hist.len() as u64);
+    let mut fp = case_seed;
+    for e in hist.iter().take(4000) {
+        fp = hash_combine(fp, e.thread as u64);
+    }
+    r.eval(fp, batch_overlapping > 0);
+    if seen_sigs.is_empty() && r.want_sample() && rng.chance(1, 6) {
+        r.sample(json!({"part": "batch", "case_seed": case_seed, "threads": threads, "flavour": flavour, "ops": hist.len(), "ids_handed_out": ids_out, "batch_calls": batch_calls,
+            "batch_calls_overlapping_another_create": batch_overlapping, "final_nodes": truth.nodes.len(), "final_edges": truth.edges.len(), "history_head": hist.iter().take(4).map(bev_json).collect::<Vec<_>>()}));
+    }
+}
+
 // ------------------------------------------------------------------------------------------------
 
 fn main() {
@@ -1087,6 +1478,7 @@ fn main() {
     let run_seq = part == "all" || part == "seq";
     let run_stress = part == "all" || part == "concurrent" || part == "stress";
     let run_det = part == "all" || part == "concurrent" || part == "det";
+    let run_batch = part == "all" || part == "concurrent" || part == "batch";
     let mut total = Report::new();
     total.max_samples = 9;
 
@@ -1109,6 +1501,20 @@ fn main() {
                 }
             }
             "det" => det_case(seed, rp["scenario"].as_u64().map(|x| x as usize), &mut total),
+            "batch" => {
+                // a workload, not a schedule: repeat it until it shows the violation again
+                for i in 0..args.extra_u64("replay-tries", 300) {
+                    let mut r = Report::new();
+                    batch_case(seed, &mut r);
+                    let hit = r.violations_total > 0;
+                    total.merge(r);
+                    total.count("replay_attempts", 1);
+                    if hit {
+                        eprintln!("batch replay reproduced after {} attempt(s)", i + 1);
+                        break;
+                    }
+                }
+            }
             _ => {
                 // a stress round is a workload, not a schedule: repeat it until it shows the violation again
                 let tries = args.extra_u64("replay-tries", 300);
@@ -1156,15 +1562,26 @@ fn main() {
         total.merge(rep);
         floors.push(("det_rounds", 18));
     }
+    if run_batch {
+        let workers = (args.threads / 3).max(2);
+        let n = args.by_tier(1_500u64, 60_000u64);
+        let rep = par_cases(workers, args.seed ^ 0xBA7C, n, args.budget(20, 240), |_i, s, r| batch_case(s, r));
+        total.merge(rep);
+        floors.push(("batch_rounds", 20));
+        floors.push(("batch_create_calls", 10_000));
+        floors.push(("batch_calls_overlapping_another_create", 2_000));
+        floors.push(("batch_ids_handed_out", 30_000));
+    }
 
     let meta = Meta {
         property: "C05",
-        rule: "seq: one random program of 20-80 operations (create/update/delete node and edge; directed, undirected, self-loop and parallel edges; nonexistent targets; a quarter of the programs add a 100-140 edge burst on one hub and delete the hub) with every structural read compared with a reference multigraph after every operation; distinct by the hash of the executed trace, non-trivial if >=10 operations ran and at least one edge was deleted. stress: one round = fresh engine, 1-3 hubs, 2-8 threads x 15-60 operations (four mixes: create only / +delete_edge / +delete_node,create_node / +update) with seeded jitter inside the adjacency read-modify-write; judged at quiescence by the walker on the engine's own all_nodes/all_edges plus edge conservation from the recorded history; distinct by the hash of the observed invocation order, non-trivial if operations of different threads overlapped in time. det: nine two-thread schedules with thread A parked inside the adjacency read-modify-write while B runs; same oracle.",
+        rule: "seq: one random program of 20-80 operations (create/update/delete node and edge; directed, undirected, self-loop and parallel edges; nonexistent targets; a quarter of the programs add a 100-140 edge burst on one hub and delete the hub) with every structural read compared with a reference multigraph after every operation; distinct by the hash of the executed trace, non-trivial if >=10 operations ran and at least one edge was deleted. stress: one round = fresh engine, 1-3 hubs, 2-8 threads x 15-60 operations (four mixes: create only / +delete_edge / +delete_node,create_node / +update) with seeded jitter inside the adjacency read-modify-write; judged at quiescence by the walker on the engine's own all_nodes/all_edges plus edge conservation from the recorded history; distinct by the hash of the observed invocation order, non-trivial if operations of different threads overlapped in time. det: nine two-thread schedules with thread A parked inside the adjacency read-modify-write while B runs; same oracle. batch: one round = fresh engine, 2-8 threads x 150-650 short calls on a private ring of 8-32 nodes per thread plus 2-4 shared nodes (batch_create_edges of 1-3 edges, create_edge, batch_create_nodes, create_node; flavours add batch_delete_edges/delete_edge/batch_update_nodes or delete_node/batch_delete_nodes on a victim pool); at quiescence every id returned by a successful creation must be unique across threads and the record under it must be the one that call created (endpoints, type, direction, per-call payload), then the walker; non-trivial if a batch creation overlapped another thread's creation in time.",
         assumptions: vec![
             "a node is never judged to be (or not to be) its own neighbour: self is removed from both sides before neighbour/traverse sets are compared".into(),
             "out_degree/in_degree are compared with the number of distinct existing edges in the respective list (an undirected self-loop counts once per list), which is what edges_of returns".into(),
             "node records that reappear after a successful delete_node (update_node racing delete_node) are only counted (info_deleted_nodes_existing_at_quiescence): the statement speaks about edges and adjacency, not about node records".into(),
             "in concurrent rounds the signature of a structural finding (conc:adjacency-lost-update / conc:delete_node-vs-create_edge / conc:update_edge-vs-delete) is derived from which recorded operations overlapped in time with the creation/removal of the offending edge; the verdict itself does not depend on it".into(),
+            "batch part: only ids returned by successful calls are judged; an edge is exempt from the record check if a deletion targeted it or one of its endpoints; call intervals are thread-local monotonic clock reads used for evidence (overlap counters) and for naming the cause in a signature, never for the verdict".into(),
             "the raw `node:N:out|in` list is read through engine.store() only to name the orphan id in a report, never to decide".into(),
         ],
         floors,
